@@ -330,8 +330,15 @@ GridSupportInvariant(t, k, x, w) ==
 (* handling) exactly as it found it.  gs = <<divide, over, under, invalid>> observed before and after  *)
 (* a call.                                                                                             *)
 StatePreserved(before, after) == before = after
-(* a fit whose weights are not all finite has a non-finite normal matrix: it cannot answer 0 *)
-NonFiniteWeightStatuses == {-1, -2}
+(* A fit one of whose weights is not finite.  The statement says what cholesky_band does with a        *)
+(* non-finite MATRIX (it signals it) and that an impossible fit is reported by status and mask; it     *)
+(* does not say that such data must make the fit fail.  NaN weight: ignoring the datum (weight 0) or    *)
+(* refusing are both within the statement - status 0 is then judged as the optimum over the finitely,   *)
+(* positively weighted data.  Infinite weight: sum w (y - s)^2 is finite only for splines through that  *)
+(* datum and the normal matrix is non-finite, so the documented machinery refuses (-1 / -2); an answer  *)
+(* 0 is admitted only if the spline passes through the infinitely weighted datum.  In every case: no     *)
+(* exception, finite coefficients, the mask rule, global state preserved.                               *)
+NonFiniteWeightStatuses == {0, -1, -2}
 
 (* ---------------- the machine ---------------- *)
 (* prob: the support problem (constant during a behaviour); bkmask: good knots; status: result of   *)
